@@ -248,7 +248,9 @@ def changed_anchor_files(prop_id):
         rec = json.load(open(os.path.join(VERIF, "ref", "source_fingerprints.json")))
         cur = fingerprint.fingerprints(REPO)
     except Exception as e:  # noqa
-        return ["(fingerprints unavailable: %s)" % type(e).__name__]
+        return []
+    if rec.get("(python)") != cur.get("(python)"):
+        return []          # recorded under another Python: the dumps are not comparable, no escalation
     anchors = []
     for line in open(os.path.join(VERIF, "properties.jsonl")):
         d = json.loads(line)
